@@ -5,6 +5,7 @@ package main
 // final directory content with the Lean directory model.
 
 import (
+	"bytes"
 	"context"
 	"encoding/hex"
 	"fmt"
@@ -217,6 +218,48 @@ func runC16(c *ctx) {
 				fr.compare(c, "fs-store-model")
 				fr.cleanup()
 			}
+		}
+	}
+	// directed: the documented no-op. A writer's Close succeeded (the file is published); Abort on it - the usual
+	// deferred cleanup - is documented to do nothing. Whatever happened to its name meanwhile (tombstoned, drawn
+	// again by a new writer that is still writing or has finished), that Abort must not touch the new writer.
+	for _, base := range []string{"x", "bloom-7", "x.dat"} {
+		for variant := 0; variant < 3; variant++ {
+			fr := newFsRun()
+			fr.create([]string{base})
+			fr.write(0, []byte{1, 2, 3})
+			fr.close(0)
+			fr.tombstone(base)
+			fr.create([]string{base, "elsewhere"})
+			fr.write(1, []byte{7, 7})
+			if variant == 1 {
+				fr.close(1)
+			}
+			fr.abort(0) // the old writer's deferred Abort
+			if variant == 2 {
+				fr.abort(0) // and once more
+			}
+			if variant != 1 {
+				fr.write(1, []byte{8})
+				fr.close(1)
+			}
+			closeRes := fr.results[len(fr.results)-1]
+			if variant == 1 {
+				closeRes = fr.results[len(fr.results)-2]
+			}
+			data, rerr := os.ReadFile(filepath.Join(fr.dir, base+".dat"))
+			want := []byte{7, 7, 8}
+			if variant == 1 {
+				want = []byte{7, 7}
+			}
+			if closeRes != "ok" || rerr != nil || !bytes.Equal(data, want) {
+				fr.viol = append(fr.viol, Finding{Kind: "violation", Check: "late-abort-damages-new-writer", Detail: fmt.Sprintf("writer A of %s.dat was closed successfully and its pointer tombstoned; a new writer B drew the same name; A.Abort() (documented as a no-op after a successful Close) ran; B's Close returned %s and %s.dat holds %v (read err %v), want ok and %v", base, closeRes, base, data, rerr, want), Replay: map[string]any{"ops": fr.ops.String()}})
+			}
+			fr.open(base)
+			c.r.Case(true, fmt.Sprint("late-abort ", base, " ", variant))
+			c.r.Hit("fs.late-abort-after-close")
+			fr.compare(c, "fs-store-model")
+			fr.cleanup()
 		}
 	}
 	var freed []string // bases tombstoned after their writer finished: the next CreateFile may draw them again
